@@ -6,6 +6,7 @@
 #include <time.h>
 #include <unistd.h>
 #include "mvh.h"
+#include "myth/myth.h"
 
 uint64_t mvh_counter[64];
 const char *mvh_counter_name[64];
@@ -62,6 +63,24 @@ static double now_s(void) {
 
 struct override { const char *name; long val; };
 
+/* --envprobe N: natural-timing run (simulator inactive, real worker pthreads) used by the
+   configuration-string part of C15: initialise from the environment, check the worker count,
+   run a small fork-join program, finalise. */
+static void *probe_leaf(void *a) { return (void *)((long)a + 1); }
+static int envprobe(long expect_nw) {
+  myth_init();
+  int nw = myth_get_num_workers();
+  if (expect_nw > 0 && nw != expect_nw) { printf("ENVPROBE-BAD nworkers=%d expected=%ld\n", nw, expect_nw); fflush(stdout); _exit(11); }
+  myth_thread_t th[8];
+  for (long i = 0; i < 8; i++) th[i] = myth_create(probe_leaf, (void *)i);
+  for (long i = 0; i < 8; i++) { void *r = 0; myth_join(th[i], &r); if (r != (void *)(i + 1)) { printf("ENVPROBE-BAD join\n"); fflush(stdout); _exit(11); } }
+  int w = myth_get_worker_num();
+  if (w < 0 || w >= nw) { printf("ENVPROBE-BAD worker index %d\n", w); fflush(stdout); _exit(11); }
+  myth_fini();
+  printf("ENVPROBE-OK nworkers=%d\n", nw);
+  return 0;
+}
+
 int main(int argc, char **argv) {
   const char *cname = 0, *replay = 0, *outdir = "", *sigfile = 0;
   uint64_t seed = 1; long start = 0, runs = 1; int tier = 0, verbose = 0, dump_plan = 0;
@@ -77,6 +96,7 @@ int main(int argc, char **argv) {
     else if (!strcmp(argv[i], "--replay-out") && i + 1 < argc) outdir = argv[++i];
     else if (!strcmp(argv[i], "--sigfile") && i + 1 < argc) sigfile = argv[++i];
     else if (!strcmp(argv[i], "--max-seconds") && i + 1 < argc) max_seconds = atof(argv[++i]);
+    else if (!strcmp(argv[i], "--envprobe") && i + 1 < argc) { mvsim_global_init(); return envprobe(atol(argv[++i])); }
     else if (!strcmp(argv[i], "--verbose")) verbose = 1;
     else if (!strcmp(argv[i], "--dump-plan")) dump_plan = 1;
     else if (!strcmp(argv[i], "--set") && i + 1 < argc && nov < 32) {
@@ -146,7 +166,12 @@ int main(int argc, char **argv) {
       if (!found) { fprintf(stderr, "--set: no parameter %s in class %s\n", ov[k].name, cname); return 2; }
     }
     mvsim_set_context("mvh", cname, seed, i, outdir);
-    if (dump_plan && c->describe) { printf("PLAN run=%ld ", i); c->describe(cur_params, stdout); printf("\n"); }
+    if (dump_plan) {
+      printf("PLAN run=%ld ", i);
+      if (c->describe) c->describe(cur_params, stdout);
+      else { printf("%s", cname); for (int j = 0; j < c->nparams; j++) printf(" %s=%ld", c->param_names[j], cur_params[j]); }
+      printf("\n");
+    }
     mvsim_runstats st; memset(&st, 0, sizeof st);
     mvh_run_flags = 0;
     c->run(cur_params, &cfg, &st);
